@@ -259,6 +259,9 @@ func runC02(c *Ctx) {
 	c.redisBatchComplete(rd, "C02.R13")
 	c.redisSuccessWritten(rd, "C02.R14")
 	c.redisCommandCensus(rd, "C02.R15")
+	c.inmemSuccessStored(im, "C02.R16")
+	c.redisLostTxIdentity(rd, "C02.R17")
+	c.redisCasIssuedOnce(rd, "C02.R18")
 	c.inmemClassEdges(im, "C02.R5", "")
 	c.redisClassEdges(rd, "C02.R5", "C02.R5")
 	c.R.Floor("C02.R5", 10)
@@ -293,6 +296,8 @@ func runC03(c *Ctx) {
 	c.redisSuccessWritten(rd, "C03.R18")
 	c.redisTTLFresh(rd, "C03.R19")
 	c.redisLostTxReread(rd, "C03.R20")
+	c.inmemSuccessStored(im, "C03.R21")
+	c.redisGetManySlots(rd, "C03.R22")
 }
 
 func runC06(c *Ctx) {
@@ -311,6 +316,7 @@ func runC06(c *Ctx) {
 	c.durationArithmeticBounded("C06.R11", "in-memory expiry timer", im.storage["WaitForVersionChange"], im.all)
 	c.redisTTLFresh(rd, "C06.R12")
 	c.redisLostTxReread(rd, "C06.R13")
+	c.redisSuccessWritten(rd, "C06.R14") // an expired record written over a live one must replace it (the rule of C03.R18)
 }
 
 func runC07(c *Ctx) {
